@@ -2,7 +2,8 @@ import SaModel.Lemmas.C01NewShape
 import SaModel.Lemmas.C01CompDefs
 import SaModel.Lemmas.C01CompLeaf
 /-
-C01's `Safe` (hypothesis of the C01 / C03 / C04 theorems) as a DECIDABLE property of the schema.
+C01's `Safe` (hypothesis of the `Safe`-carrying C01 / C03 theorems; of no C04 theorem, which go through the hidden-rows
+refinement of Props/C01Obs.lean) as a DECIDABLE property of the schema.
 
   safeDT dt n        — `Safe` of the builder `build_builder` creates for a field ⟨dt, n, _⟩
   defSafeDT dt n md  — `DefSafe` of that builder
